@@ -135,7 +135,7 @@ type Machine struct {
 	StdinTail string   // unterminated last line ("" if none)
 	Clock     float64
 	MaxSteps  int
-	Static    bool // static (lexical, resolve-at-declaration) name resolution mode, see C03
+	Repl      bool // interactive mode: top-level expression statements echo their value
 
 	res     Result
 	globals *Scope
@@ -204,6 +204,12 @@ func (m *Machine) Run(prog []*N) (res *Result) {
 			m.fail("stray-return", m.ctlLine, "return outside function")
 		}
 		if s.K == "expr" {
+			if m.Repl {
+				if _, u := m.lastExprVal.(unspecValue); u {
+					m.unspec("echo of an unspecified value")
+				}
+				m.res.Events = append(m.res.Events, m.printEvent(m.lastExprVal))
+			}
 			m.res.Values = append(m.res.Values, m.lastExprVal)
 		} else {
 			m.res.Values = append(m.res.Values, nil)
